@@ -28,7 +28,7 @@ ASSUMPTIONS = [
     "bootstrap factor 1 (the property's precondition)",
     "near-ties (< 1e-7 correlation margin) are not compared (DESIGN D-c)",
 ]
-CASE_TIMEOUT = 900
+CASE_TIMEOUT = 5400
 
 
 def bounds(tier):
